@@ -107,3 +107,16 @@ Theorem C13_fit_ellipsoid_base_categories_obey_the_upper_bound :
     Forall (el_ok r_hat rho0) (W (DB s')) /\ rho (DB s') = [rho0].
 Proof. exact dv_ellipsoid_fit_bound. Qed.
 Print Assumptions C13_fit_hypersphere_base_categories_obey_the_upper_bound.
+
+(* the map invariant after every WHOLE call (keys = the existing base categories, values exactly 0..n_clusters-1,
+   total look-ups: DInv), from every state the API can reach *)
+From ART Require Import DualVig_total DualVig_reach.
+Theorem C13_map_invariant_after_fit :
+  forall (N : Num) (K : Kernel N) (s s' : dv (N:=N)) X veto mode eps lb ls,
+    dv_fit K s X veto mode eps lb = Some (s', ls) -> X <> [] -> DInv s'.
+Proof. exact @dv_fit_inv. Qed.
+Theorem C13_map_invariant_after_partial_fit :
+  forall (N : Num) (K : Kernel N) (s s' : dv (N:=N)) X veto mode eps lb ls,
+    DOk s -> dv_partial_fit K s X veto mode eps lb = Some (s', ls) -> DOk s' /\ (X <> [] -> DInv s').
+Proof. exact @dv_partial_fit_inv. Qed.
+Print Assumptions C13_map_invariant_after_fit.
